@@ -327,11 +327,16 @@ else:
         return datetime.datetime.strptime(instance, "%Y-%m-%d")
 
 
+_FULL_DATE = re.compile(r"^[0-9]{4}-[0-9]{2}-[0-9]{2}\Z")
+
+
 @_checks_drafts(draft3="date", draft7="date", raises=ValueError)
 def is_date(instance):
     if not isinstance(instance, str):
         return True
-    return _is_date(instance)
+    # Only RFC 3339 full-date, not the other ISO 8601 spellings
+    # that ``date.fromisoformat`` understands on newer Pythons.
+    return bool(_FULL_DATE.match(instance)) and _is_date(instance)
 
 
 @_checks_drafts(draft3="time", raises=ValueError)
